@@ -47,7 +47,7 @@ func (x *Exec) eval(e ast.Expr, st *State) Term {
 			}
 			if o.Pkg() != nil && o.Parent() == o.Pkg().Scope() {
 				g := x.loadGlobal(st, o)
-				st.assume(x.typeInv(st, g))
+				st.assume(x.typeInv(x.allocStateFor(st, g.S), g))
 				return g
 			}
 			x.unsupported(n, "variable %s has no value (captured or address-taken?)", n.Name)
@@ -109,8 +109,9 @@ func (x *Exec) eval(e ast.Expr, st *State) Term {
 			if _, isPtr := base.T.Underlying().(*types.Pointer); isPtr {
 				x.oblige(st, "nil", "", n, not(app("=", base.S, "0")))
 				v := x.loadField(st, base, stT, f)
+				heap := x.memTerm(st, fieldKey(stT, f.Name()), "(Array Int "+x.ctx.sortOf(f.Type())+")")
 				v = x.define(st, f.Name(), v)
-				st.assume(x.typeInv(st, v))
+				st.assume(x.typeInv(x.allocStateForRef(st, heap.S, base), v))
 				return v
 			}
 			return x.fieldOfValue(base, f)
@@ -120,7 +121,7 @@ func (x *Exec) eval(e ast.Expr, st *State) Term {
 		switch o := obj.(type) {
 		case *types.Var:
 			g := x.loadGlobal(st, o)
-			st.assume(x.typeInv(st, g))
+			st.assume(x.typeInv(x.allocStateFor(st, g.S), g))
 			return g
 		case *types.Const:
 			return constTerm(x.ctx, o.Val(), o.Type())
@@ -345,12 +346,12 @@ func (x *Exec) resliceView(st *State, base, r, lo Term) {
 	}
 	vb, _ := x.viewOf(st, base, sl.Elem())
 	if lo.S == "0" {
-		x.ctx.views[key] = vb.S
+		x.regView(m.S, r.S, vb.S)
 		return
 	}
 	nv := x.ctx.fresh("view", "(Array Int "+es+")")
 	x.ctx.decl(fmt.Sprintf("(assert (forall ((k?r Int)) (! (= (select %s k?r) (select %s (+ %s k?r))) :pattern ((select %s k?r)))))", nv, vb.S, lo.S, nv))
-	x.ctx.views[key] = nv
+	x.regView(m.S, r.S, nv)
 	x.bridge(nv, m, r)
 }
 
@@ -561,6 +562,14 @@ func (x *Exec) evalCall(call *ast.CallExpr, st *State) []Term {
 		packed := x.freshOf(st, "varargs", vt)
 		args = append(args[:np-1:np-1], packed)
 	}
+	if x.con != nil && x.con.Snapshots != nil {
+		if name, ok := x.con.Snapshots["call "+fn.Name()]; ok {
+			if st.snaps == nil {
+				st.snaps = map[string]*State{}
+			}
+			st.snaps[name] = st.clone()
+		}
+	}
 	if c := x.prog.Contracts.Funcs[key]; c != nil {
 		return x.callContract(call, c, fn, recv, args, st)
 	}
@@ -760,9 +769,15 @@ func (x *Exec) evalBuiltin(call *ast.CallExpr, name string, st *State) []Term {
 			es := x.ctx.sortOf(u.Elem())
 			m := x.elemMem(st, es)
 			zarr := fmt.Sprintf("((as const (Array Int %s)) %s)", es, x.zeroOf(u.Elem()).S)
+			if strings.Contains(zarr, "str!") {
+				// cvc5 wants a value in a constant array: define the zeroed array by an axiom instead
+				zarr = x.ctx.fresh("zeroed", "(Array Int "+es+")")
+				x.ctx.decl(fmt.Sprintf("(assert (forall ((k?z Int)) (! (= (select %s k?z) %s) :pattern ((select %s k?z)))))", zarr, x.zeroOf(u.Elem()).S, zarr))
+			}
 			nm := x.define(st, "e_make", Term{S: app("store", m.S, r.S, zarr), Sort: m.Sort})
 			st.mem[x.regElem(u.Elem())] = nm
 			x.setView(nm, s, Term{S: zarr, Sort: "(Array Int " + es + ")"})
+			x.transferViews(m, nm, es, func(string) string { return "true" }) // a fresh array aliases nothing
 			return []Term{s}
 		case *types.Map:
 			return []Term{x.newMap(st, u, t)}
@@ -825,6 +840,7 @@ func (x *Exec) evalAppend(call *ast.CallExpr, st *State) Term {
 		ns := app("ite", room, app("mk-slice", arr, off, app("+", ln, "1"), cp), app("mk-slice", fresh.S, "0", app("+", ln, "1"), ncap))
 		s = x.define(st, "appended", Term{S: ns, Sort: "Slice", T: x.typeOf(call)})
 		x.setView(nm, s, Term{S: app("store", app("ite", room, view.S, farr), ln, v.S), Sort: view.Sort})
+		x.transferViews(m, nm, es, func(sl string) string { return not(app("=", app("s-arr", sl), arr)) })
 	}
 	return s
 }
@@ -856,9 +872,7 @@ func (x *Exec) evalCopy(call *ast.CallExpr, st *State) Term {
 		na, doff, doff, n.S, oldS, soff, doff, oldD, na))
 	nm := x.define(st, "e_copy", Term{S: app("store", m.S, darr, na), Sort: m.Sort})
 	st.mem[key] = nm
-	key2 := nm.S + "|" + dst.S
-	if _, ok := x.ctx.views[key2]; !ok {
-		x.ctx.views[key2] = nv
-	}
+	x.regView(nm.S, dst.S, nv)
+	x.transferViews(m, nm, es, func(sl string) string { return not(app("=", app("s-arr", sl), darr)) })
 	return n
 }
